@@ -130,6 +130,14 @@ inductive Frame
   | immediateAck
 deriving Repr, DecidableEq, BEq
 
+/-- the Go types fix some lengths: `[8]byte` path data, `[16]byte` stateless reset token,
+    `protocol.ConnectionID` of at most 20 bytes -/
+def Frame.wellTyped : Frame → Bool
+  | .pathChallenge d => d.length = 8
+  | .pathResponse d => d.length = 8
+  | .newConnectionID _ _ cid tok => cid.length ≤ 20 && tok.length = 16
+  | _ => true
+
 /-! ### parsing, frame by frame -/
 
 /-- `time.Duration(delay*1<<exp) * time.Microsecond`, saturating when negative
